@@ -148,7 +148,7 @@ func headerCountRule(c *Ctx, rule string, writeTo *ssa.Function) {
 				continue
 			}
 			fv := fieldVar(st.Addr)
-			if fv == nil || fv.Name() != "numTracks" {
+			if !p.isRoleField(fv, "smf.SMF", "numTracks") {
 				continue
 			}
 			v := st.Val
@@ -173,7 +173,7 @@ func headerCountRule(c *Ctx, rule string, writeTo *ssa.Function) {
 		for _, b := range writeTo.Blocks {
 			for _, in := range b.Instrs {
 				if st, ok := in.(*ssa.Store); ok {
-					if fv := fieldVar(st.Addr); fv != nil && fv.Name() == "numTracks" {
+					if fv := fieldVar(st.Addr); p.isRoleField(fv, "smf.SMF", "numTracks") {
 						theStore = st
 					}
 				}
@@ -192,7 +192,7 @@ func headerCountRule(c *Ctx, rule string, writeTo *ssa.Function) {
 		for _, b := range writeTo.Blocks {
 			for _, in := range b.Instrs {
 				if l, ok := in.(*ssa.UnOp); ok && l.Op == token.MUL {
-					if fv := fieldVar(l.X); fv != nil && fv.Name() == "numTracks" && theStore != nil && !instrDominates(theStore, l) {
+					if fv := fieldVar(l.X); p.isRoleField(fv, "smf.SMF", "numTracks") && theStore != nil && !instrDominates(theStore, l) {
 						okStore = false
 					}
 				}
@@ -204,7 +204,7 @@ func headerCountRule(c *Ctx, rule string, writeTo *ssa.Function) {
 		return
 	}
 	// (ii) outermost loop whose trip bound is len(load Tracks) and (iii) exactly one flush per iteration
-	chunkT := p.namedType("smf", "chunk")
+	chunkT := p.roleT("smf.chunk")
 	var chunkWT *ssa.Function
 	if chunkT != nil {
 		chunkWT = p.MethodOf(types.NewPointer(chunkT), "WriteTo")
@@ -371,7 +371,7 @@ func formatPromotion(c *Ctx, rule string, writeTo *ssa.Function) {
 				continue
 			}
 			fv := fieldVar(st.Addr)
-			if fv == nil || fv.Name() != "format" {
+			if !p.isRoleField(fv, "smf.SMF", "format") {
 				continue
 			}
 			n++
@@ -396,10 +396,10 @@ func formatPromotion(c *Ctx, rule string, writeTo *ssa.Function) {
 				if kk, ok := constInt(f.Y); ok {
 					if l, ok := f.X.(*ssa.UnOp); ok {
 						if lf := fieldVar(l.X); lf != nil {
-							if lf.Name() == "numTracks" && f.Op == token.GTR && kk == 1 {
+							if p.logicalFieldName(lf) == "numTracks" && f.Op == token.GTR && kk == 1 {
 								g1 = true
 							}
-							if lf.Name() == "format" && f.Op == token.EQL && kk == 0 {
+							if p.logicalFieldName(lf) == "format" && f.Op == token.EQL && kk == 0 {
 								g2 = true
 							}
 						}
